@@ -17,6 +17,7 @@ import FerretVerif.Drv.Diag
 import FerretVerif.Drv.Visibility
 import FerretVerif.Drv.Borrow
 import FerretVerif.Drv.QbeSel
+import FerretVerif.Drv.WasmSel
 
 open FerretVerif
 
@@ -78,6 +79,7 @@ def main (args : List String) : IO UInt32 := do
   | ["is-exported"] => eachLine cmdIsExported; return 0
   | ["borrow"] => eachLine cmdBorrow; return 0
   | ["qbe-row"] => eachLine cmdQbeRow; return 0
+  | ["wasm-row"] => eachLine cmdWasmRow; return 0
   | ["sched"] => eachLine cmdSched; return 0
   | ["toml-fmt"] => eachLine cmdTomlFmt; return 0
   | ["toml-parseval"] => eachLine cmdTomlParseVal; return 0
